@@ -14,8 +14,11 @@ import (
 	"strings"
 	"time"
 
+	"github.com/alephium/wormhole-fork/node/pkg/processor"
+	gossipv1 "github.com/alephium/wormhole-fork/node/pkg/proto/gossip/v1"
 	"github.com/alephium/wormhole-fork/node/pkg/vaa"
 	"github.com/alephium/wormhole-fork/node/verifh/ev"
+	"github.com/alephium/wormhole-fork/node/verifh/keys"
 	"github.com/alephium/wormhole-fork/node/verifh/proch"
 	"github.com/alephium/wormhole-fork/node/verifh/vtime"
 )
@@ -202,6 +205,7 @@ func main() {
 		if i == si {
 			saturation(r, w)
 			kmsPath(r, w)
+			notifierPath(r, w)
 		}
 		r.Add("states", x.States)
 		r.Add("transitions", x.Transitions)
@@ -368,6 +372,61 @@ func kmsPath(r *ev.Run, w *proch.World) {
 				r.Violation("C13 kms path: an ordinary chain message is not signed when the node signs through the Cloud KMS hand-over", fmt.Sprintf("%s: %d observations", kind, len(out.Obs)), rec)
 			}
 			nd.Close()
+		}
+	}
+}
+
+// notifierPath: with a Discord notifier configured the cleanup service names the guardians whose signature is
+// missing when a message settles. Histories in which the signature map holds signers from outside the set the
+// message is counted against (a peer's observation arrives first, the set rotates and drops that peer, then the
+// node observes the message), with 0..3 further signers, followed by the settling tick.
+func notifierPath(r *ev.Run, w *proch.World) {
+	var e vaa.Address
+	e[31] = 0x42
+	msg := proch.Msg{Seq: 1, Payload: []byte{1}, Emitter: e, Chain: 2, Target: 255}
+	w.OfflineNotifier = true
+	defer func() { w.OfflineNotifier = false }()
+	for _, n := range []int{2, 4, 7} {
+		for dropped := 1; dropped <= 2 && dropped < n; dropped++ {
+			for extra := 0; extra <= 2 && extra < n-1; extra++ {
+				setA := rng(0, n)
+				setB := append(rng(dropped, n), rng(100, 100+dropped)...) // the first `dropped` keys are replaced
+				own := n - 1                                                // member of both sets
+				nd := w.NewNodePrivateDB(own, 50)
+				hist := []string{"Set(A)"}
+				step := func(what string, in interface{}) bool {
+					hist = append(hist, what)
+					out := nd.Step(in)
+					r.Add("notifier_path_steps", 1)
+					if out.Panic != nil {
+						r.Violation("C13 notifier path: the processor panics with a Discord notifier configured", fmt.Sprintf("%v  history: %v", out.Panic, hist), map[string]interface{}{"set_A": setA, "set_B": setB, "own": own, "history": hist})
+						return false
+					}
+					return true
+				}
+				ok := step("Set(A)", proch.Set(0, setA...))
+				for g := 0; ok && g < dropped; g++ { // observations by guardians that the rotation will drop
+					ok = step(fmt.Sprintf("Obs(g=%d)", g), &gossipv1.SignedObservation{Addr: keys.Addr(g).Bytes(), Hash: msg.OwnDigest(), Signature: keys.Sign(g, msg.OwnDigest())})
+				}
+				ok = ok && step("Set(B)", proch.Set(1, setB...))
+				ok = ok && step("Msg", msg.Pub())
+				for len(nd.Pending) > 0 && ok {
+					ok = step("LB", nd.TakeLoopback(0))
+				}
+				for g := 0; ok && g < extra; g++ {
+					k := setB[g]
+					ok = step(fmt.Sprintf("Obs(g=%d)", k), &gossipv1.SignedObservation{Addr: keys.Addr(k).Bytes(), Hash: msg.OwnDigest(), Signature: keys.Sign(k, msg.OwnDigest())})
+				}
+				if ok {
+					vtime.Advance(31 * time.Second)
+					ok = step("Tick(+31s)", processor.VerifTick{})
+				}
+				if ok {
+					vtime.Advance(301 * time.Second)
+					step("Tick(+301s)", processor.VerifTick{})
+				}
+				nd.Close()
+			}
 		}
 	}
 }
